@@ -323,6 +323,12 @@ class Result:
     def judge_fails(self, fails, lines, context_fn, known_matcher=None, max_report=5):
         """fails: [(line, clause, extra)] from a trace spec; context_fn(line_no)-> replay object."""
         known = [k for k in load_known().get("findings", []) if k.get("property") == self.pid]
+        drifts = [f for f in fails if str(f[1]).startswith("Drift:")]
+        if drifts:
+            # the code differs from the implementation-shaped model where the property has no opinion: recorded, not a verdict
+            self.drift += [dict(line=ln, clause=cl) for (ln, cl, ex) in drifts[:50]]
+            print("DRIFT (not a verdict): %d trace lines differ from the model, first at line %d (%s)" % (len(drifts), drifts[0][0], drifts[0][1]))
+        fails = [f for f in fails if not str(f[1]).startswith("Drift:")]
         for (ln, clause, extra) in fails:
             ctx = context_fn(ln)
             hit = None
